@@ -137,7 +137,7 @@ def make_table_grader(table, msgs=None, tag=True):
         calls = []
 
         def check_response(self, answer, student_input, **kwargs):
-            key = (answer['expect'], student_input.strip())
+            key = (answer['expect'].strip(), student_input.strip())
             g = table[key]
             TableGrader.calls.append(key)
             if msgs is not None:
